@@ -202,7 +202,7 @@ def poles(orientations: np.ndarray, ref_axes: str = "xz", hkl=[1, 0, 0]) -> tupl
     # Get directions in the right-handed frame.
     directions = np.tensordot(orientations.transpose([0, 2, 1]), hkl, axes=(2, 0))
     directions_norm = la.norm(directions, axis=1)
-    directions /= directions_norm.reshape(-1, 1)
+    directions = directions / directions_norm.reshape(-1, 1)
 
     # Rotate into the chosen reference frame.
     zvals = directions[:, axes_map[upward_axes]]
